@@ -1,6 +1,7 @@
 package commitlog
 
 import (
+	"io"
 	"os"
 	"sort"
 )
@@ -46,6 +47,12 @@ func findSegmentIndexByTimestamp(segments []*segment, timestamp int64) (int, err
 		// Read the first entry in the segment to determine the base timestamp.
 		var entry entry
 		if e := segments[i].Index.ReadEntryAtLogOffset(&entry, 0); e != nil {
+			// An empty segment behind other segments (the active segment
+			// right after a roll) has no base timestamp yet and sorts
+			// after every timestamp.
+			if e == io.EOF && i > 0 {
+				return true
+			}
 			err = e
 			return true
 		}
